@@ -21,7 +21,12 @@ def mlGuard : Body → Bool
 theorem mlUpdate_nil (ml : ML) (t : Nat) : mlUpdate ml [] t = ml := by
   simp [mlUpdate]
 
-theorem mlRun_found (stop : Nat) : ∀ (b : Body) (ml : ML), mlRun stop b (ml, true) = (ml, true)
+/-- the regenerated fact: `visitCode` copies *all* declared identifiers of the block -/
+theorem mlKeys_eq (args d : List Name) : mlKeys args d = d := by
+  have : Generated.Names.mlocalsUpdateMinusArgs = false := by decide
+  simp [mlKeys, this]
+
+theorem mlRun_found (args : List Name) (stop : Nat) : ∀ (b : Body) (ml : ML), mlRun args stop b (ml, true) = (ml, true)
   | .nil, _ => rfl
   | .leaf _ _ _ _, _ => rfl
   | .text _ _ _, _ => rfl
@@ -42,91 +47,91 @@ theorem overlayRun_found (stop : Nat) : ∀ (b : Body) (ml : ML), Spec.overlayRu
   | .call _ _ _ _ _ _, _ => rfl
 
 /-- a list that declares nothing leaves `__M_locals` alone; it only may contain the node looked for -/
-theorem mlRun_noCodeDecl (stop : Nat) : ∀ (b : Body) (ml : ML), noCodeDecl b = true →
-    mlRun stop b (ml, false) = (ml, reaches stop b)
+theorem mlRun_noCodeDecl (args : List Name) (stop : Nat) : ∀ (b : Body) (ml : ML), noCodeDecl b = true →
+    mlRun args stop b (ml, false) = (ml, reaches stop b)
   | .nil, ml, _ => rfl
   | .leaf t _ _ r, ml, h => by
       by_cases ht : t = stop
       · simp [mlRun, reaches, ht]
-      · simp [mlRun, reaches, ht, mlRun_noCodeDecl stop r ml (by simpa [noCodeDecl] using h)]
+      · simp [mlRun, reaches, ht, mlRun_noCodeDecl args stop r ml (by simpa [noCodeDecl] using h)]
   | .text t _ r, ml, h => by
       by_cases ht : t = stop
       · simp [mlRun, reaches, ht]
-      · simp [mlRun, reaches, ht, mlRun_noCodeDecl stop r ml (by simpa [noCodeDecl] using h)]
+      · simp [mlRun, reaches, ht, mlRun_noCodeDecl args stop r ml (by simpa [noCodeDecl] using h)]
   | .page t _ _ r, ml, h => by
       by_cases ht : t = stop
       · simp [mlRun, reaches, ht]
-      · simp [mlRun, reaches, ht, mlRun_noCodeDecl stop r ml (by simpa [noCodeDecl] using h)]
+      · simp [mlRun, reaches, ht, mlRun_noCodeDecl args stop r ml (by simpa [noCodeDecl] using h)]
   | .defn t _ _ _ _ r, ml, h => by
       by_cases ht : t = stop
       · simp [mlRun, reaches, ht]
-      · simp [mlRun, reaches, ht, mlRun_noCodeDecl stop r ml (by simpa [noCodeDecl] using h)]
+      · simp [mlRun, reaches, ht, mlRun_noCodeDecl args stop r ml (by simpa [noCodeDecl] using h)]
   | .code t d _ r, ml, h => by
       simp only [noCodeDecl, Bool.and_eq_true, List.isEmpty_iff] at h
       by_cases ht : t = stop
       · simp [mlRun, reaches, ht]
-      · simp [mlRun, reaches, ht, h.1, mlUpdate_nil, mlRun_noCodeDecl stop r ml h.2]
+      · simp [mlRun, reaches, ht, h.1, mlKeys_eq, mlUpdate_nil, mlRun_noCodeDecl args stop r ml h.2]
   | .block t nm _ _ _ b r, ml, h => by
       simp only [noCodeDecl, Bool.and_eq_true] at h
       by_cases ht : t = stop
       · simp [mlRun, reaches, ht]
       · cases nm with
-        | some n => simp [mlRun, reaches, ht, mlRun_noCodeDecl stop r ml h.2]
+        | some n => simp [mlRun, reaches, ht, mlRun_noCodeDecl args stop r ml h.2]
         | none =>
-          have hb := mlRun_noCodeDecl stop b ml h.1
+          have hb := mlRun_noCodeDecl args stop b ml h.1
           cases hr : reaches stop b
-          · simp [mlRun, reaches, ht, hb, hr, mlRun_noCodeDecl stop r ml h.2]
+          · simp [mlRun, reaches, ht, hb, hr, mlRun_noCodeDecl args stop r ml h.2]
           · simp [mlRun, reaches, ht, hb, hr, mlRun_found]
   | .call t _ _ _ b r, ml, h => by
       simp only [noCodeDecl, Bool.and_eq_true] at h
       by_cases ht : t = stop
       · simp [mlRun, reaches, ht]
-      · have hb := mlRun_noCodeDecl stop b ml h.1
+      · have hb := mlRun_noCodeDecl args stop b ml h.1
         cases hr : reaches stop b
-        · simp [mlRun, reaches, ht, hb, hr, mlRun_noCodeDecl stop r ml h.2]
+        · simp [mlRun, reaches, ht, hb, hr, mlRun_noCodeDecl args stop r ml h.2]
         · simp [mlRun, reaches, ht, hb, hr, mlRun_found]
 
-theorem mlRun_eq_overlay (stop : Nat) : ∀ (b : Body) (ml : ML), mlGuard b = true →
-    mlRun stop b (ml, false) = Spec.overlayRun stop b (ml, false)
+theorem mlRun_eq_overlay (args : List Name) (stop : Nat) : ∀ (b : Body) (ml : ML), mlGuard b = true →
+    mlRun args stop b (ml, false) = Spec.overlayRun stop b (ml, false)
   | .nil, ml, _ => rfl
   | .leaf t _ _ r, ml, h => by
       by_cases ht : t = stop
       · simp [mlRun, Spec.overlayRun, ht]
-      · simp [mlRun, Spec.overlayRun, ht, mlRun_eq_overlay stop r ml (by simpa [mlGuard] using h)]
+      · simp [mlRun, Spec.overlayRun, ht, mlRun_eq_overlay args stop r ml (by simpa [mlGuard] using h)]
   | .text t _ r, ml, h => by
       by_cases ht : t = stop
       · simp [mlRun, Spec.overlayRun, ht]
-      · simp [mlRun, Spec.overlayRun, ht, mlRun_eq_overlay stop r ml (by simpa [mlGuard] using h)]
+      · simp [mlRun, Spec.overlayRun, ht, mlRun_eq_overlay args stop r ml (by simpa [mlGuard] using h)]
   | .page t _ _ r, ml, h => by
       by_cases ht : t = stop
       · simp [mlRun, Spec.overlayRun, ht]
-      · simp [mlRun, Spec.overlayRun, ht, mlRun_eq_overlay stop r ml (by simpa [mlGuard] using h)]
+      · simp [mlRun, Spec.overlayRun, ht, mlRun_eq_overlay args stop r ml (by simpa [mlGuard] using h)]
   | .defn t _ _ _ _ r, ml, h => by
       by_cases ht : t = stop
       · simp [mlRun, Spec.overlayRun, ht]
-      · simp [mlRun, Spec.overlayRun, ht, mlRun_eq_overlay stop r ml (by simpa [mlGuard] using h)]
+      · simp [mlRun, Spec.overlayRun, ht, mlRun_eq_overlay args stop r ml (by simpa [mlGuard] using h)]
   | .code t d _ r, ml, h => by
       by_cases ht : t = stop
       · simp [mlRun, Spec.overlayRun, ht]
-      · simp [mlRun, Spec.overlayRun, ht, mlRun_eq_overlay stop r _ (by simpa [mlGuard] using h)]
+      · simp [mlRun, Spec.overlayRun, ht, mlKeys_eq, mlRun_eq_overlay args stop r _ (by simpa [mlGuard] using h)]
   | .block t nm _ _ _ b r, ml, h => by
       simp only [mlGuard, Bool.and_eq_true] at h
       by_cases ht : t = stop
       · simp [mlRun, Spec.overlayRun, ht]
       · cases nm with
-        | some n => simp [mlRun, Spec.overlayRun, ht, mlRun_eq_overlay stop r ml h.2]
+        | some n => simp [mlRun, Spec.overlayRun, ht, mlRun_eq_overlay args stop r ml h.2]
         | none =>
-          have hb := mlRun_noCodeDecl stop b ml h.1
+          have hb := mlRun_noCodeDecl args stop b ml h.1
           cases hr : reaches stop b
-          · simp [mlRun, Spec.overlayRun, ht, hb, hr, mlRun_eq_overlay stop r ml h.2]
+          · simp [mlRun, Spec.overlayRun, ht, hb, hr, mlRun_eq_overlay args stop r ml h.2]
           · simp [mlRun, Spec.overlayRun, ht, hb, hr, mlRun_found]
   | .call t _ _ _ b r, ml, h => by
       simp only [mlGuard, Bool.and_eq_true] at h
       by_cases ht : t = stop
       · simp [mlRun, Spec.overlayRun, ht]
-      · have hb := mlRun_noCodeDecl stop b ml h.1
+      · have hb := mlRun_noCodeDecl args stop b ml h.1
         cases hr : reaches stop b
-        · simp [mlRun, Spec.overlayRun, ht, hb, hr, mlRun_eq_overlay stop r ml h.2]
+        · simp [mlRun, Spec.overlayRun, ht, hb, hr, mlRun_eq_overlay args stop r ml h.2]
         · simp [mlRun, Spec.overlayRun, ht, hb, hr, mlRun_found]
 
 end MakoModel.Names
